@@ -255,7 +255,7 @@ def run(tier):
         for k, v in g["coverage"].items():
             acts[k] = acts.get(k, 0) + v
     if T["coverage"]:
-        need = {"Poll", "IO", "Park", "Begin", "D2", "Cont", "Finish", "Cancel", "SelBegin", "SelCall", "SelWake", "SelEnd", "Ext"}
+        need = {"Poll", "IORetry", "Park", "D2", "Cont", "Finish", "CancelTask", "SelBegin", "SelCall", "SelWake", "SelEnd", "Ext"}
         missing = [a for a in need if acts.get(a, 0) == 0]
         if missing:
             raise vlib.ToolError(f"actions of the model not exercised: {missing} ({acts})")
@@ -264,6 +264,12 @@ def run(tier):
     for g in gens:
         for k, v in g["summary"]["kinds"].items():
             kinds[k] = kinds.get(k, 0) + v
+    # every operation kind, every system-call outcome and every kind of select return was replayed
+    for k in ["op:R", "op:W", "op:WA", "op:S", "op:G", "op:D", "op:C", "op:Y", "rd:EAGAIN", "rd:ok", "rd:EBADF", "wr:EAGAIN", "wr:ok",
+              "wr:EPIPE", "sr:ok", "sr:EINTR", "sr:EBADF", "sw", "cancel", "xw", "xr", "xc", "xs", "xt", "xn", "sc:poll", "sc:block",
+              "sc:timeout", "sc:block+mask", "sc:poll+mask", "sc:timeout+mask"]:
+        if kinds.get(k, 0) == 0:
+            raise vlib.ToolError(f"no replayed history exercises {k}")
     histories = sum(g["histories"] for g in gens)
     events = sum(g["summary"]["events"] for g in gens)
     nontrivial = sum(g["summary"]["nontrivial"] for g in gens)
